@@ -105,6 +105,23 @@ CHECKS = {
              'TLC validates each recovery against the reference store of acknowledged operations.',
         design='5/C04', technique='TLA+ effect-grain crash model (TLC exhaustive) + crash-point enumeration on the real code validated by TLC',
         note='Process kill, not power loss. Effects are interposed via module attributes of slimta.diskstorage. ' + TB),
+    'C07': dict(
+        level='model_checking',
+        text='SmtpServer.tla is the complete finite graph of server.py over command variants (well-formed, malformed, bare) x '
+             'validator verdicts; TLC checks order / no-callback-on-error / reset / close on every edge. Real sessions (every '
+             'command sequence to a depth after five prefixes, every verdict assignment of a transaction skeleton, random long '
+             'sessions) through the real Server with the real edge SmtpSession are validated by TLC against the observer, '
+             'which reconstructs protocol state from the replies only and also judges the envelope handed to the queue.',
+        design='5/C07', technique='TLA+ finite server graph (TLC complete) + TLC trace validation of real sessions',
+        note='Commands one at a time over an in-memory socket; STARTTLS/AUTH in C08; segmentation in C09. ' + TB),
+    'C09': dict(
+        level='model_checking',
+        text='The framing automaton (DataFraming, shared with C05) is checked exhaustively by TLC; each generated session byte '
+             'stream is delivered unit-by-unit (judged by the C07 observer: content handed over equals content sent, one reply '
+             'per unit), byte-by-byte, in one burst, randomly cut and cut around every unit boundary, and TLC requires the '
+             'reply sequence and the callback/hand-off sequence of all deliveries of a stream to be equal.',
+        design='5/C09', technique='TLA+ framing automaton + TLC metamorphic bundle validation across segmentations of real sessions',
+        note='Known finding D15 (size limit verdict depends on segmentation). ' + TB),
 }
 
 HOOK_COMMITS = []
